@@ -12,7 +12,7 @@ cp -r /repo "$tmp/repo"
 if ! git -C "$tmp/repo" apply "$patch"; then echo "PATCH-DOES-NOT-APPLY $patch"; exit 2; fi
 (cd "$tmp/repo" && go build ./... ) >/dev/null 2>"$tmp/build.err" || { echo "DOES-NOT-BUILD"; head -5 "$tmp/build.err"; exit 2; }
 for p in "$@"; do
-  out="$("$here/bin/gsx" -verif "$here" -outroot "$tmp" -repo "$tmp/repo" -prop "$p" -tier "${TIER:-quick}" 2>&1)"
+  out="$("$here/bin/gsx" -verif "$here" -outroot "$tmp" -repo "$tmp/repo" -prop "$p" -tier "${TIER:-quick}" -workers "${WORKERS:-16}" 2>&1)"
   code=$?
   echo "$p exit=$code $(echo "$out" | grep -a '^VIOLATION' | wc -l) violation line(s); $(echo "$out" | grep -a '^exit' | tail -1)"
   echo "$out" | grep -a '^violation:' | head -4 | cut -c1-220
